@@ -304,3 +304,32 @@ Proof.
   exact (conj (gen_manageProof_spec _ _ h size _ _ Hh Hs Hp) (storagefiles_manage_proof h w key)).
 Qed.
 Print Assumptions C01_code_tie_manageProof.
+
+From JK Require Import Proofs.GoTiePostProof.
+
+(* the whole PostProof handler (with UnifiedFile.Prove, SetProven and ResetChunkWithProof), generated from the current
+   source: who may submit (a listed prover whose record is found, or a newcomer while there is room), the challenge
+   named must be the stored one, the proof must verify -- and only then anything at all is written: the proof height,
+   the next challenge, the newcomer's listing, the record.  A refusal answers Success=false with no event before it *)
+Theorem C01_code_tie_PostProof :
+  forall found nproofs maxp getprover_ok listed to_prove challenge start pi h last size chunk draw verified,
+    small h -> small start -> int64_min < size <= int64_max ->
+    gen_PostProof found nproofs maxp getprover_ok listed to_prove challenge start pi h last size chunk draw verified
+    = postproof_spec found nproofs maxp getprover_ok listed to_prove challenge pi h size chunk draw verified.
+Proof. exact gen_PostProof_spec. Qed.
+Print Assumptions C01_code_tie_PostProof.
+
+(* the model of the C01 / C17 theorems follows that closed form on the reads taken from its own state *)
+Theorem C01_code_tie_model_post_proof_follows :
+  forall s creator merkle owner start height to_prove verified new_chunk chunk_size size draw,
+    let fo := get_file s (merkle, owner, start) in
+    let nproofs := match fo with Some f => len f | None => 0 end in
+    let maxp := match fo with Some f => f_max f | None => 0 end in
+    let gp := match fo with Some f => get_prover s f creator | None => None end in
+    let listed := match fo with Some f => contains_prover f creator | None => false end in
+    let pi := match fo with Some f => f_interval f | None => 0 end in
+    let chal := if (nproofs =? maxp) || listed then match gp with Some p => p_chunk p | None => 0 end else 0 in
+    let model := post_proof s creator merkle owner start height to_prove verified new_chunk chunk_size in
+    model = pp_verdict s (postproof_spec (GoTiePostProof.is_some fo) nproofs maxp (GoTiePostProof.is_some gp) listed to_prove chal pi height size chunk_size draw verified) model.
+Proof. exact storagefiles_post_proof_follows. Qed.
+Print Assumptions C01_code_tie_model_post_proof_follows.
